@@ -17,7 +17,8 @@ def qkeras_quantizer(o):
   s = o["src"]
   mv = (o["mvm"] * 2.0 ** o["mvk"]) if o["hasmv"] else None
   if s == "bits":
-    return Q.quantized_bits(o["bits"], o["int"], keep_negative=bool(o["kn"]), alpha=1.0)
+    # (the flag as a bool or as the integer 0 / 1 that quantizer strings produce)
+    return Q.quantized_bits(o["bits"], o["int"], keep_negative=(o["kn"] if o["bits"] % 2 else bool(o["kn"])), alpha=1.0)
   if s == "relu":
     return Q.quantized_relu(o["bits"], o["int"])
   if s == "po2":
